@@ -1,9 +1,13 @@
 (* C04 - Serialization round-trips trees exactly in dict, JSON, MessagePack and YAML.
-   ONLY statements; proofs are `exact <lemma of Proofs/SerialProofs.v>`. Model: Model/Serial.v
+   ONLY statements; proofs are `exact <lemma of Proofs/Serial*.v>`. Model: Model/Serial.v
    (orjson / msgpack / yaml are the identity on the JSON-like value: assumption, exercised by the harness).
    Proved for all inputs: property values, code points/ranges, sources through the source registry (plain and
-   index-based), the No* singletons. Origins and whole trees: only the _partial statements at the end. *)
-From Oak Require Import Model.SerOpts Model.Serial Proofs.SerialProofs.
+   index-based, incl. the registry rebuilt by load_serialized_sources), the No* singletons, origins of every kind,
+   whole trees into any node registry (none / some / all of the originals alive), sharing, == of the result.
+   Reading guide for the tree theorems: Spec/SerialSpec.v (rt_ok, nodes, consistent). *)
+From Oak Require Import Model.SerOpts Model.Serial Spec.SerialSpec Model.Equality Spec.CEq
+  Proofs.SerialProofs Proofs.SerialOriginProofs Proofs.SerialTreeProofs Proofs.SerialEqProofs Proofs.SerialTotalProofs
+  Proofs.SerialExamples.
 
 (* every property value of a representable kind that conforms to its annotation comes back unchanged
    (strings, 64-bit and larger ints, floats by repr, bools, None, enums by value, paths, tuples, optionals) *)
@@ -48,9 +52,8 @@ Theorem C04_singletons : forall s reg fuel,
 Proof. exact singletons. Qed.
 
 (* index-based sources: an index reference resolves to a source == to the original in every registry that holds
-   equal sources at the same indices. PARTIAL: that load_serialized_sources(all_as_dict()) rebuilds such a registry in
-   a fresh process is not proved for all registries (checked on the worked tree below and by the harness). *)
-Theorem C04_source_index_partial : forall s' x reg reg' i fuel, get_sidx s' = true -> x <> SNo ->
+   equal sources at the same indices (the same process: the registry itself) *)
+Theorem C04_source_index_agree : forall s' x reg reg' i fuel, get_sidx s' = true -> x <> SNo ->
   ser_source s' reg x = Some (JMap [kv "idx" (JInt (Z.of_nat i))]) ->
   (forall y, nth_error reg i = Some y -> exists y', nth_error reg' i = Some y' /\ source_eqb y' y = true) ->
   exists y', deser_source (S fuel) (JMap [kv "idx" (JInt (Z.of_nat i))]) reg' = Ok (y', reg') /\ source_eqb y' x = true.
@@ -59,14 +62,165 @@ Example C04_source_index_inhabited :
   ser_source {| sl_opts := sort_idx; sl_md := None |} [SFile (lit "a"); x_src] x_src = Some (JMap [kv "idx" (JInt (Z.of_nat 1))]).
 Proof. reflexivity. Qed.
 
-(* PARTIAL (origins, whole trees, sharing): NOT proved for all trees. What is kernel-checked is the round trip of one
-   worked tree (every origin kind incl. a multi-origin and a source set with NoSource, a child shared between two
-   fields, a content-identical twin whose id carries a _1 suffix, optional / tuple / path values) into an EMPTY node
-   registry, with and without sort_keys + index-based sources, with the same and with a cleared-and-reloaded source
-   registry: position-wise equal class, id, content_id, property values, origin (==), all nodes new, and two
-   positions hold one object exactly when they did in the original. Missing: the induction over origins and nodes
-   with the registries threaded (C04_origin_roundtrip, C04_roundtrip, C04_sharing, C04_reg_inv of DESIGN 3). *)
-Theorem C04_roundtrip_partial :
+(* ... and another process: Source.all_as_dict() always succeeds on a registry as Source.__post_init__ builds it
+   (reg_valid: no NoSource entry, no two == entries, the members of a source set before the set);
+   load_serialized_sources of it into an EMPTY registry rebuilds pairwise == sources at the same indices (reg_eqv),
+   so that every index reference written against the old registry resolves to a source == the original.
+   Fuel: the nesting depth of the deepest source set. *)
+Theorem C04_source_index : forall s' reg fuel, get_sidx s' = true -> reg_valid reg ->
+  (forall y, In y reg -> source_depth y <= fuel) ->
+  exists ds reg', all_as_dict reg = Some ds /\ load_sources fuel ds [] = Ok reg' /\ reg_eqv reg reg' /\
+    forall x v k, ser_source s' reg x = Some v ->
+      exists y', deser_source (S k) v reg' = Ok (y', reg') /\ source_eqb y' x = true.
+Proof. exact source_index_reload. Qed.
+(* every registry the constructors can produce is valid: the empty one, and constructing an origin (its sources first,
+   the members of a set before the set, the SourceSet of a multi-origin last) keeps it valid *)
+Theorem C04_registry_valid : reg_valid [] /\
+  forall o reg, reg_valid reg -> reg_valid (register_origin o reg) /\ closed (register_origin o reg) (osource o)
+                                 /\ exists k, register_origin o reg = reg ++ k.
+Proof. exact (conj reg_valid_nil register_origin_valid). Qed.
+
+(* origins of every kind - code, generated, XML, entire-source, multi-origins (nested ones included), over every source
+   kind incl. source sets and NoSource, and the NoOrigin singleton - under every option subset the reader supports
+   (sort_keys or not; plain or index-based sources; SKIP_CLASS is excluded: Origin._deserialize dispatches on the tag
+   and raises without it, only the {} placeholders are readable then, see C04_singletons): the origin read back is ==
+   the original. With index-based sources the registry at reading time must hold == sources at the indices of the
+   registry at writing time (reg_agree: the same registry, or the one rebuilt by C04_source_index), and still does
+   afterwards. Fuel: origin_depth = nesting of multi-origins + source sets + 1. wf_origin = what the constructors
+   enforce (a valid range; a multi-origin has at least two members). *)
+Theorem C04_origin_roundtrip : forall s, ints_as_str s = false -> get_skip s = false ->
+  forall o fuel, origin_depth o <= fuel ->
+  forall reg0 v reg, wf_origin o -> ser_origin s reg0 o = Some v -> (get_sidx s = true -> reg_agree reg0 reg) ->
+  exists o' reg', deser_origin fuel s v reg = Ok (o', reg') /\ origin_eqb o' o = true
+                  /\ (get_sidx s = true -> reg_agree reg0 reg').
+Proof. exact origin_roundtrip. Qed.
+Example C04_origin_inhabited : wf_origin x_origin /\ origin_depth x_origin <= 5
+  /\ (exists v, ser_origin slots0 [] x_origin = Some v)
+  /\ (exists v, ser_origin x_s1 (register_origin x_origin []) x_origin = Some v)
+  /\ reg_valid (register_origin x_origin []).
+Proof. exact ex_origin. Qed.
+
+(* ---------- whole trees ----------
+   T: a tree term; the same address is the same object (consistent); every node conforms to its class and its
+   annotations (conforming: class declared, fields in declaration order with the declared shapes, a constructible
+   origin, init-fields conform to their annotation [wt], init=False fields hold their default); field names differ
+   from the built-in keys. ids: address -> id as handed out at construction; reg0: the node registry when reading
+   starts, ANY registry in which an id of the tree is bound to nothing but that node (no_takeover: "provided no other
+   live node has meanwhile taken over its id"): none, some or all of the originals, plus any other nodes.
+   Result (rt_ok, Spec/SerialSpec.v), position by position: the registered original itself, or else a new object
+   (address >= next0) registered under the serialized id - suffix included - with the same class, content_id and
+   property values, an == origin, the same child field names and shapes, children related the same way.
+   Options: sort_keys or not, index-based sources or not, the explorer dialect or none; not SKIP_CLASS (the reader
+   needs the tag), not the test dialect (it overwrites the source), not a user dialect for ints.
+   Fuel: node_depth T. Additionally: originals stay registered; every id registered by the reading is an id of the tree. *)
+Theorem C04_roundtrip : forall H ct pt s, ints_as_str s = false -> get_skip s = false -> is_test s = false ->
+  (forall c f, In f (fields_of ct c) -> ~ In (fd_name f) reserved) ->
+  forall reg ids armed reg0 ids0 next0 srcs T v fuel,
+  consistent T -> ids_injective ids T -> conforming ct pt s T -> no_takeover ids reg0 T ->
+  (forall a x, assoc_nat a ids0 = Some x -> a < next0) ->
+  (get_sidx s = true -> reg_agree reg srcs) ->
+  ser_node H ct pt current_nv s reg ids armed T = Some v -> node_depth T <= fuel ->
+  exists n' st',
+    deser_node H ct pt current_dv fuel s v {| ds_srcs := srcs; ds_reg := reg0; ds_ids := ids0; ds_next := next0 |} = Ok (n', st')
+    /\ rt_ok H ct ids reg0 next0 (ds_reg st') (ds_ids st') T n'
+    /\ reg_ext reg0 (ds_reg st')
+    /\ (forall j, reg_find j reg0 = None -> reg_find j (ds_reg st') <> None ->
+        exists m, In m (nodes T) /\ assoc_nat (addr m) ids = Some j).
+Proof. exact tree_roundtrip. Qed.
+
+(* the same for a tree built through the registry simulation in ANY registry state (binv: the ids in use, e.g. of
+   content-identical twins outside the tree, so that ids carry _N suffixes; binv_init: any set of used ids is one):
+   the ids handed out are pairwise different, nothing else is needed *)
+Theorem C04_roundtrip_reuse : forall H ct pt s, ints_as_str s = false -> get_skip s = false -> is_test s = false ->
+  (forall c f, In f (fields_of ct c) -> ~ In (fd_name f) reserved) ->
+  forall T st0 armed reg0 ids0 next0 srcs v fuel,
+  binv st0 -> let stb := build H ct T st0 in
+  consistent T -> conforming ct pt s T -> no_takeover (b_ids stb) reg0 T ->
+  (forall a x, assoc_nat a ids0 = Some x -> a < next0) ->
+  (get_sidx s = true -> reg_agree (b_srcs stb) srcs) ->
+  ser_node H ct pt current_nv s (b_srcs stb) (b_ids stb) armed T = Some v -> node_depth T <= fuel ->
+  exists n' st',
+    deser_node H ct pt current_dv fuel s v {| ds_srcs := srcs; ds_reg := reg0; ds_ids := ids0; ds_next := next0 |} = Ok (n', st')
+    /\ rt_ok H ct (b_ids stb) reg0 next0 (ds_reg st') (ds_ids st') T n'
+    /\ reg_ext reg0 (ds_reg st')
+    /\ (forall j, reg_find j reg0 = None -> reg_find j (ds_reg st') <> None ->
+        exists m, In m (nodes T) /\ assoc_nat (addr m) (b_ids stb) = Some j).
+Proof. exact built_roundtrip. Qed.
+Theorem C04_build_ids : (forall used, binv {| b_ids := []; b_used := used; b_srcs := [] |}) /\
+  (forall H ct n st, binv st -> binv (build H ct n st)) /\
+  (forall H ct n st t, binv st -> ids_injective (b_ids (build H ct n st)) t).
+Proof. exact (conj binv_init (conj build_binv build_injective)). Qed.
+
+(* the premise "ser_node ... = Some v" (as_dict does not raise) of the theorems above holds for every consistent tree
+   serialized right after it was built into a state that knew none of its addresses, under EVERY option set (with
+   index-based sources: every source of every origin, the SourceSets of multi-origins included, is in the registry) *)
+Theorem C04_serializes : forall H ct pt s T st0, consistent T -> binv st0 -> b_ids st0 = [] ->
+  let stb := build H ct T st0 in
+  exists v, ser_node H ct pt current_nv s (b_srcs stb) (b_ids stb) [] T = Some v.
+Proof. exact build_serializes. Qed.
+
+(* none of the originals alive - a fresh process: an EMPTY node registry (so rt_reused is impossible: every position
+   of the result is a new node under the serialized id) and a source registry rebuilt from Source.all_as_dict() *)
+Theorem C04_roundtrip_fresh : forall H ct pt s, ints_as_str s = false -> get_skip s = false -> is_test s = false ->
+  (forall c f, In f (fields_of ct c) -> ~ In (fd_name f) reserved) ->
+  forall T st0 armed next0 v fuel sfuel,
+  binv st0 -> let stb := build H ct T st0 in
+  consistent T -> conforming ct pt s T ->
+  (forall y, In y (b_srcs stb) -> source_depth y <= sfuel) ->
+  ser_node H ct pt current_nv s (b_srcs stb) (b_ids stb) armed T = Some v -> node_depth T <= fuel ->
+  exists ds srcs, all_as_dict (b_srcs stb) = Some ds /\ load_sources sfuel ds [] = Ok srcs /\
+  exists n' st',
+    deser_node H ct pt current_dv fuel s v {| ds_srcs := srcs; ds_reg := []; ds_ids := []; ds_next := next0 |} = Ok (n', st')
+    /\ rt_ok H ct (b_ids stb) [] next0 (ds_reg st') (ds_ids st') T n'
+    /\ (forall j, reg_find j (ds_reg st') <> None -> exists m, In m (nodes T) /\ assoc_nat (addr m) (b_ids stb) = Some j).
+Proof. exact built_roundtrip_fresh_process. Qed.
+
+(* all of the originals alive (it suffices that the root is): reading is a registry lookup; the result is the original
+   tree itself, address for address, and no state changes *)
+Theorem C04_roundtrip_all_alive : forall H ct pt s, is_test s = false ->
+  (forall c f, In f (fields_of ct c) -> ~ In (fd_name f) reserved) ->
+  forall reg ids armed T v fuel st i,
+  ser_node H ct pt current_nv s reg ids armed T = Some v ->
+  assoc_nat (addr T) ids = Some i -> reg_find i (ds_reg st) = Some T ->
+  deser_node H ct pt current_dv (S fuel) s v st = Ok (T, st).
+Proof. exact tree_all_alive. Qed.
+
+(* a node that occurred at several positions is one object again; two objects are not merged into one *)
+Theorem C04_sharing : forall H ct ids reg0 next0 regF idsF n1 n1' n2 n2',
+  rt_ok H ct ids reg0 next0 regF idsF n1 n1' -> rt_ok H ct ids reg0 next0 regF idsF n2 n2' ->
+  (addr n1 = addr n2 -> n1' = n2') /\
+  ((forall i, assoc_nat (addr n1) ids = Some i -> assoc_nat (addr n2) ids = Some i -> addr n1 = addr n2) ->
+   addr n1 < next0 -> addr n2 < next0 -> addr n1' = addr n2' -> addr n1 = addr n2).
+Proof. exact rt_sharing. Qed.
+
+(* "the result is therefore == to the original": ASTNode.__eq__ (Model/Equality.v eqn: class, content_id, then the
+   origins of both dfs streams position by position) answers True; the result is a well-formed, content-equal tree *)
+Theorem C04_eq : forall H ct ids reg0 next0 regF idsF n n',
+  rt_ok H ct ids reg0 next0 regF idsF n n' -> wf_node ct n = true ->
+  eqn H ct current n n' = EqTrue /\ wf_node ct n' = true /\ ceq ct n n'.
+Proof. exact rt_eq. Qed.
+
+(* the premises are inhabited: the worked tree (every origin kind incl. a multi-origin and a source set with NoSource, a
+   child shared between two fields, content-identical twins, optional / tuple / path values) built into a registry in
+   which a twin of one leaf is registered (so that two leaves get the ids ..._1 and ..._2), without options and with
+   sort_keys + index-based sources *)
+Example C04_tree_inhabited :
+  (forall c f, In f (fields_of x_ct c) -> ~ In (fd_name f) reserved) /\ consistent x_tree /\ binv x_st0
+  /\ conforming x_ct x_pt slots0 x_tree /\ conforming x_ct x_pt x_s1 x_tree /\ wf_node x_ct x_tree = true
+  /\ ((exists v, ser_node x_H x_ct x_pt current_nv slots0 (b_srcs x_stb) (b_ids x_stb) [] x_tree = Some v)
+      /\ (exists v, ser_node x_H x_ct x_pt current_nv x_s1 (b_srcs x_stb) (b_ids x_stb) [] x_tree = Some v)
+      /\ node_depth x_tree <= 6 /\ (forall y, In y (b_srcs x_stb) -> source_depth y <= 2))
+  /\ (assoc_nat 3 (b_ids x_stb) = Some (x_H (id_data x_H x_ct current x_leaf2) ++ lit "_1")
+      /\ assoc_nat 4 (b_ids x_stb) = Some (x_H (id_data x_H x_ct current x_leaf2) ++ lit "_2")).
+Proof.
+  exact (conj ex_names (conj ex_consistent (conj (binv_init _) (conj (ex_conforming slots0 eq_refl)
+        (conj (ex_conforming x_s1 eq_refl) (conj ex_wf (conj ex_serializes ex_suffix))))))).
+Qed.
+
+(* a kernel-evaluated instance (kept from the earlier, partial state of this file): the worked tree into an empty node
+   registry x {no options, sort_keys + index sources} x {same, reloaded source registry}: position-wise class, id,
+   content_id, props, origin; all nodes new; the same sharing pattern *)
+Theorem C04_roundtrip_worked_example :
   rt_check od_empty false = true /\ rt_check od_empty true = true /\ rt_check sort_idx false = true /\ rt_check sort_idx true = true.
 Proof. exact example_roundtrip. Qed.
 
